@@ -187,7 +187,7 @@ def tlc(spec_dir, module, cfg=None, workers=4, timeout=600, env=None, simulate=N
     return r
 
 
-_case_re = re.compile(r'^<<"(CASE|REPLAY)", "(.*)">>$')
+_case_re = re.compile(r'<<\s*"(CASE|REPLAY)",\s*"((?:[^"\\]|\\.)*)"\s*>>', re.S)
 
 
 def tla_unescape(s):
@@ -220,10 +220,7 @@ def tlc_generate(spec_dir, module, cfg, out_path, timeout=900, env=None, simulat
     n = 0
     seen = set()
     with open(out_path, "a" if append else "w") as f:
-        for line in r.out.splitlines():
-            m = _case_re.match(line)
-            if not m:
-                continue
+        for m in _case_re.finditer(r.out):
             js = tla_unescape(m.group(2))
             if js in seen:
                 continue
@@ -248,7 +245,7 @@ def validate_trace(spec_dir, module, trace_path, cfg=None, timeout=900, env=None
         e.update(env)
     r = tlc(spec_dir, module, cfg, workers=1, timeout=timeout, env=e, coverage=False, heap=heap, dfs_queue=True)
     res = {"accepted": False, "line": None, "record": None, "result": r}
-    m = re.search(r'<<"REJECTED", (\d+), "(.*)">>', r.out)
+    m = re.search(r'<<\s*"REJECTED",\s*(\d+),\s*"((?:[^"\\]|\\.)*)"\s*>>', r.out, re.S)
     if m:
         res["line"] = int(m.group(1))
         try:
@@ -258,6 +255,8 @@ def validate_trace(spec_dir, module, trace_path, cfg=None, timeout=900, env=None
         return res
     if r.error is None and "Model checking completed. No error has been found." in r.out:
         res["accepted"] = True
+        m = re.search(r'<<\s*"BADCASES",\s*"((?:[^"\\]|\\.)*)"\s*>>', r.out, re.S)
+        res["bad"] = json.loads(tla_unescape(m.group(1))) if m else []
         return res
     raise ToolError("trace validation %s on %s failed unexpectedly: %s" % (module, trace_path, (r.error_text or r.out[-2000:])[:2500]))
 
